@@ -10,7 +10,7 @@ import ast
 
 from ..report import AnalysisError
 from ..srcmodel import norm
-from ..tracer import Tracer, NOCONST
+from ..tracer import Tracer, NOCONST, callback_params
 from .common import PRIOS
 from . import tr
 
@@ -306,7 +306,7 @@ def filter_callback(repo, host_q, recv):
         raise AnalysisError('%s: filter_nodes call not found' % host_q)
     cb = evs[0].args[0] if evs[0].args else evs[0].kw.get('condition')
     if cb is None or cb.closure is None:
-        raise AnalysisError('%s: filter_nodes callback is not a local function' % host_q)
+        raise AnalysisError('%s: filter_nodes callback is not a function of the package' % host_q)
     t, cpaths = Tracer(repo, no_inline=NI, follow_exceptions=False).trace_closure(cb)
     return fi, evs, t, cpaths
 
@@ -346,7 +346,7 @@ def removal_guards(repo, run, rule):
         if (e.recv.text if e.recv is not None else '') != 'other.ayns':
             run.violation(rule, tr.where(li, e), e.callee, 'the list pre-filter prunes %s, not the newer list' % (e.recv.text if e.recv is not None else '?'))
             return
-    node = cb.params()[1]
+    node = callback_params(cb)[1]
     bad = None
     m = 0
     for q in cpaths:
@@ -378,7 +378,7 @@ def strictness(repo, run, rule):
     """the comparison that protects older entries from a deleting node is strict and asks about the *older* node;
     the comparisons that let the newer node replace win ties"""
     fi, evs, mk, cpaths = filter_callback(repo, 'ComposedNode.ayns.on_merge_impl', 'self')
-    node = mk.params()[1]
+    node = callback_params(mk)[1]
     n = 0
     for q in cpaths:
         if q.status != 'return':
@@ -415,7 +415,7 @@ def strictness(repo, run, rule):
     if not k:
         raise AnalysisError('wholesale replacement (other._replace_other(self)) not found')
     li, evs2, cb, cp2 = filter_callback(repo, 'ConfigList.ayns.on_merge_impl', 'other')
-    node2 = cb.params()[1]
+    node2 = callback_params(cb)[1]
     m = 0
     for q in cp2:
         if q.status != 'return' or (q.ret is not None and q.ret.const is True):
